@@ -54,19 +54,19 @@ Definition dKItems : dec (list kitem) :=
                    let* pr := dZ in let* rd := dBool in let* sh := dZ in let* dl := dOpt dZ in
                    ret (c, u, p, mkJKeys pr rd sh dl)) in
   ret (knumber 0 l).
-Definition klayout (ts : layout Z) : layout (kitem -> kitem -> Z) :=
-  map (map (fun s => mkSlot (s_en s) (s_reg s)
+Definition klayout (role : Z) (ts : layout Z) : layout (kitem -> kitem -> Z) :=
+  map (map (fun s => mkSlot (s_en s) (s_reg s && plugin_registers role (s_ans s))
                             (fun (l r : kitem) => real_cmp (s_ans s) (snd l) (snd r)))) ts.
 Definition ktb (role : Z) (l r : kitem) : bool :=
   if role =? 2 then compare_task (fst l) (fst r) else by_time_uid (fst l) (fst r).
 (* the same comparators seen as comparators on the bare items (for the law) *)
-Definition klayout_items (ks : list kitem) (ts : layout Z) : layout (item -> item -> Z) :=
+Definition klayout_items (role : Z) (ks : list kitem) (ts : layout Z) : layout (item -> item -> Z) :=
   let key (it : item) : jkeys :=
       match find (fun k => i_id (fst k) =? i_id it) ks with
       | Some k => snd k
       | None => mkJKeys 0 false 0 None
       end in
-  map (map (fun s => mkSlot (s_en s) (s_reg s)
+  map (map (fun s => mkSlot (s_en s) (s_reg s && plugin_registers role (s_ans s))
                             (fun (l r : item) => real_cmp (s_ans s) (key l) (key r)))) ts.
 
 (* --- heap --- *)
@@ -197,7 +197,15 @@ Definition entry (sel : Z) (toks : list Z) : list Z :=
   (* 5: orderings with the shipped plugins' comparators; role 0 job, 1 queue, 2 task *)
   | 5 => match run_dec (let* role := dZ in let* ks := dKItems in let* ts := dLayout dZ in
                         ret (role, ks, ts)) toks with
-         | Some (role, ks, ts) => tag 1 ++ eMatB ks (order_fn (klayout ts) (ktb role))
+         | Some (role, ks, ts) =>
+             let lt := order_fn (klayout role ts) (ktb role) in
+             tag 1 ++ eMatB ks lt ++
+             (* the items pushed in the given order into a PriorityQueue built on
+                the session order function, then popped until empty *)
+             tag 2 ++ match heap_sort lt ks with
+                      | Some out => eList eZ (map (fun k => i_id (fst k)) out)
+                      | None => model_error
+                      end
          | None => bad_input end
   (* 7: util.PriorityQueue history *)
   | 7 => match run_dec (let* mode := dZ in let* ops := dList dOp in ret (mode, ops)) toks with
@@ -249,14 +257,25 @@ Definition entry (sel : Z) (toks : list Z) : list Z :=
            | Some (its, vt, qt, m) => eBool (law_victim_queue_order its vt qt m)
            | None => bad_input end
   | 105 => match run_dec (let* role := dZ in let* ks := dKItems in let* ts := dLayout dZ in
-                          let* m := dMat (length ks) in ret (role, ks, ts, m)) toks with
-           | Some (role, ks, ts, m) =>
+                          let* m := dMat (length ks) in let* t2 := dZ in let* out := dList dZ in
+                          ret (role, ks, ts, m, out)) toks with
+           | Some (role, ks, ts, m, out) =>
                let its := map fst ks in
-               let lts := klayout_items ks ts in
-               eBool (if role =? 2
-                      then decided_b its lts compare_task m &&
-                           implb (uniform_idx its) (swo_b its m && total_b its m)
-                      else decided_b its lts by_time_uid m && swo_b its m && total_b its m)
+               let lts := klayout_items role ks ts in
+               let tb := if role =? 2 then compare_task else by_time_uid in
+               let guard := if role =? 2 then uniform_idx its else true in
+               (* the key order: first distinguishing plugin key, then the tie-break *)
+               let key_lt (a b : item) :=
+                   let j := lex (actives lts) a b in if j =? 0 then tb a b else j <? 0 in
+               let outs := flat_map (fun i => match find (fun it => i_id it =? i) its with
+                                              | Some it => [it] | None => [] end) out in
+               eBool (decided_b its lts tb m &&
+                      implb guard (swo_b its m && total_b its m) &&
+                      (* pop order: every item exactly once, no later item precedes an
+                         earlier one - under the implementation's own answers and
+                         under the key order *)
+                      same_multiset out (map i_id its) &&
+                      implb guard (law_sorted m outs && law_sorted key_lt outs))
            | None => bad_input end
   | 107 => match run_dec (let* mode := dZ in let* before := dList dZ in let* o := dOp in
                           let* ret_ := dOpt dZ in let* after := dList dZ in
